@@ -356,6 +356,38 @@ func Run(c *ev.Ctx) {
 					}
 				}
 			}
+			// legacy rows: an update by ID that would move one intention onto the (source, destination) pair of another one
+			// has to be refused; two rows for one pair would make the decision depend on their IDs
+			if legacy && pi == 0 && len(set) >= 2 {
+				for a := range order {
+					for b := range order {
+						if a == b || order[a].Dst != order[b].Dst {
+							continue
+						}
+						w2, ok2 := build(order, true)
+						if !ok2 {
+							continue
+						}
+						act := structs.IntentionActionDeny
+						if order[b].Act == "deny" {
+							act = structs.IntentionActionAllow
+						}
+						w2.Apply(cmdlib.LegacyIxnSet(fmt.Sprintf("i%d", a+1), order[b].Src, order[b].Dst, act, true))
+						lev++
+						_, all, _, _ := w2.Store().Intentions(nil, nil)
+						seen := map[string]int{}
+						for _, x := range all {
+							seen[x.SourceName+"->"+x.DestinationName]++
+						}
+						for pair, n := range seen {
+							if n > 1 {
+								c.Violate("C13:two-intentions-for-one-pair-after-update:legacy=true",
+									fmt.Sprintf("updating intention i%d to %s left %d intentions for the pair %s: %s", a+1, pair, n, pair, render(all)), map[string]any{"ops": w2.Hist})
+							}
+						}
+					}
+				}
+			}
 			// the same questions through the RPC endpoints a client reaches: Intention.Match, Intention.Check
 			// (local source, which is what that endpoint decides) and Intention.List
 			if pi == 0 || pi == len(perms)-1 {
